@@ -1,7 +1,8 @@
 /* R = ledger: the template parameter R instantiated at "binary exponent offset".
  * A finite value x is represented by the integer number of binary orders it has been shifted;
- * +-infinity are the two saturating constants.  spxLdexp(x, e) = x + e (saturating at +-infinity,
- * exactly as IEEE ldexp leaves +-inf unchanged).  In this domain "scale then unscale gives the
+ * R(infinity) is one large constant.  spxLdexp(x, e) = x + e for EVERY x: SoPlex's `infinity` is the
+ * finite double 1e100 (SOPLEX_DEFAULT_INFINITY), so ldexp does change it - code that must leave an infinite
+ * bound alone has to test for it, and a contract that says "infinite stays infinite" fails if it does not.  In this domain "scale then unscale gives the
  * value back bit for bit" is the integer fact "the exponents cancel".  Code that multiplies LP data
  * by anything but a power of two does not type-check against the uses below (no spxAbs, no '*').
  * Assumption reported in the evidence: IEEE ldexp is exact absent overflow/underflow. */
@@ -14,8 +15,8 @@ typedef long long R;
 static const long long infinity = LEDGER_INF;
 static inline R spxLdexp(R x, int e)
 {
-   if(x >= LEDGER_INF || x <= -LEDGER_INF)
-      return x;
-   return x + e;
+   /* modular addition: equals x + e whenever that does not overflow (always, for ledger-valid x and bounded e);
+      cells other than the ghost cell carry arbitrary bit patterns and must not trip the overflow check */
+   return (R)((unsigned long long)x + (unsigned long long)(long long)e);
 }
 #endif
